@@ -58,6 +58,9 @@ def run(tier, seed):
     for pool in (False, True):
         cfg = gen.std_cfg(ns=1, usepool=pool, ports=[3001, 3002] if pool else [])
         corecheck.validate(chk, cfg, gen.STD_TREE, [s for _, s in fam], label="cuts" + ("+pool" if pool else ""))
+    # a server listening on an IPv6 address (PASV opens a listener, answers 503 and ends the session): everything that mentions PASV
+    v6 = [s for _, s in fam if "PASV" in repr(s)]
+    corecheck.validate(chk, gen.std_cfg(ns=1, usepool=True, ports=[3001, 3002], v6=True), gen.STD_TREE, v6 if tier != "quick" else v6[::3], label="cuts+v6")
     chk.cov["rule"] = ("scripted corpus (all verbs, all transfer kinds) x cut after every step / while the j-th backend call "
                        "is in flight / while the passive listener is being opened, by peer EOF or server.close(); "
                        "ledger compared at every quiescent instant; distinct = distinct schedules")
